@@ -80,7 +80,7 @@ func c20Fifo(c *Ctx) {
 	p := c.P
 	rule := "C20.fifo"
 	c.Doc(rule, "the expectation used is expectations[0] and the queue is advanced by expectations[1:] (by len(msgs) in SendMessages) on the same path, under len(expectations) > 0")
-	c.Floor(rule, 3)
+	c.Floor(rule, 5)
 	type host struct {
 		name  string
 		field string
@@ -114,7 +114,14 @@ func c20Fifo(c *Ctx) {
 		}
 		cr := reg.From(head[0].After()).Count(pop)
 		c.Check(!cr.HasNone() && !cr.HasTwo(), rule, fn, "pop-one", head[0].Instr(), "expectations[0] is used and the queue advanced by exactly one on every path", "after taking expectations[0] the queue is not advanced by exactly one: an expectation is replayed or skipped", cr.NonePath)
-		g, path := reg.Guarded(head[0], AnyOf{Cmp{token.GTR, LenOf(FieldLoad(h.field)), ConstInt(0)}, Cmp{token.NEQ, LenOf(FieldLoad(h.field)), ConstInt(0)}})
+		// every message that finds an expectation consumes it, whatever happens to the message afterwards (a
+		// partitioner or checker error included): otherwise the script shifts by one for all later messages
+		nonEmpty := AnyOf{Cmp{token.GTR, LenOf(FieldLoad(h.field)), ConstInt(0)}, Cmp{token.NEQ, LenOf(FieldLoad(h.field)), ConstInt(0)}}
+		for _, e := range reg.EstablishingEdges(nonEmpty) {
+			esc, pth := reg.From(Pt{e.To, 0}).Escape(pop)
+			c.Check(!esc, rule, fn, "every-input-consumes", lastInstr(e.From), "with an expectation left, every path consumes exactly that one", "a message can be handled (for instance rejected by the partitioner) without consuming its expectation: every later message gets its predecessor's outcome and Close reports a leftover", pth)
+		}
+		g, path := reg.Guarded(head[0], nonEmpty)
 		c.Check(g, rule, fn, "non-empty", head[0].Instr(), "guarded by len(expectations) > 0", "expectations[0] read without checking that an expectation is left: index out of range instead of a reported deviation", path)
 	}
 	if fn := c.NeedFn(rule, "mocks.SyncProducer.SendMessages"); fn != nil {
